@@ -354,3 +354,12 @@ package imperatives
 //@   property C14
 //@   requires table != nil && table.ref != 0
 //@   modifies *
+
+//@ // ParseDestinations: the destination strings of a TOML route section, each parsed by readDestination
+//@ func ParseDestinations(destinationConfigs []string, table table.Interface, allowMatcher bool, routeKey string) (destinations []*destination.Destination, err error)
+//@   property C20,C14
+//@   requires table != nil && table.ref != 0
+//@   modifies allof("[]*destination.Destination")
+//@   ensures[all_built; C14] err == nil ==> len(destinations) == len(destinationConfigs) && (forall j int :: 0 <= j && j < len(destinations) ==> destinations[j] != nil && destinations[j].RouteName == routeKey)
+//@   loop 1:
+//@     invariant[built_so_far] 0 <= #i && #i <= len(#s) && #s == destinationConfigs && s != nil && len(destinations) == #i && (isnil(destinations) || fresh(destinations)) && (forall j int :: 0 <= j && j < len(destinations) ==> destinations[j] != nil && destinations[j].RouteName == routeKey)
